@@ -9,7 +9,7 @@ use crate::encode::CompileError;
 use crate::filter::{HierarchicalIterator, Separation};
 use crate::token::{Token, TokenTree, Tokenized};
 use crate::walk::{
-    Entry, EntryResidue, FileIterator, JoinAndGetDepth, SplitAtDepth, TreeEntry, WalkBehavior,
+    Entry, EntryResidue, FileIterator, JoinAndGetDepth, TreeEntry, WalkBehavior,
     WalkError, WalkTree,
 };
 use crate::{BuildError, CandidatePath, Glob, Pattern};
@@ -269,7 +269,6 @@ impl GlobWalker {
         self,
         behavior: impl Into<WalkBehavior>,
     ) -> impl 'static + FileIterator<Entry = GlobEntry, Residue = TreeEntry> {
-        let pivot = self.anchor.pivot;
         self.anchor
             .walk_with_behavior(behavior)
             .filter_map_tree(move |cancellation, separation| {
@@ -287,8 +286,8 @@ impl GlobWalker {
                     _ => unreachable!(),
                 };
                 let entry = filtrate.as_ref();
-                let (_, path) = self::root_relative_paths(entry.path(), entry.depth(), pivot);
-                let depth = entry.depth().saturating_sub(1);
+                let (_, path) = entry.root_relative_paths();
+                let depth = entry.entry.depth().saturating_sub(1);
                 for (position, candidate) in path
                     .components()
                     .filter_map(|component| match component {
@@ -321,11 +320,7 @@ impl GlobWalker {
                                 {
                                     filtrate
                                         .map(|entry| {
-                                            Ok(GlobEntry {
-                                                entry,
-                                                pivot,
-                                                matched,
-                                            })
+                                            Ok(GlobEntry { entry, matched })
                                         })
                                         .into()
                                 }
@@ -350,11 +345,7 @@ impl GlobWalker {
                             {
                                 filtrate
                                     .map(|entry| {
-                                        Ok(GlobEntry {
-                                            entry,
-                                            pivot,
-                                            matched,
-                                        })
+                                        Ok(GlobEntry { entry, matched })
                                     })
                                     .into()
                             }
@@ -379,11 +370,7 @@ impl GlobWalker {
                 {
                     return filtrate
                         .map(|entry| {
-                            Ok(GlobEntry {
-                                entry,
-                                pivot,
-                                matched,
-                            })
+                            Ok(GlobEntry { entry, matched })
                         })
                         .into();
                 }
@@ -531,7 +518,6 @@ impl FilterAny {
 #[derive(Debug)]
 pub struct GlobEntry {
     entry: TreeEntry,
-    pivot: usize,
     matched: MatchedText<'static>,
 }
 
@@ -566,7 +552,7 @@ impl Entry for GlobEntry {
     }
 
     fn root_relative_paths(&self) -> (&Path, &Path) {
-        self::root_relative_paths(self.path(), self.entry.depth(), self.pivot)
+        self.entry.root_relative_paths()
     }
 
     fn file_type(&self) -> FileType {
@@ -578,10 +564,7 @@ impl Entry for GlobEntry {
     }
 
     fn depth(&self) -> usize {
-        self.entry
-            .depth()
-            .checked_add(self.pivot)
-            .expect("overflow determining depth")
+        self.entry.depth()
     }
 }
 
@@ -589,12 +572,4 @@ impl From<GlobEntry> for TreeEntry {
     fn from(entry: GlobEntry) -> Self {
         entry.entry
     }
-}
-
-fn root_relative_paths(path: &Path, depth: usize, pivot: usize) -> (&Path, &Path) {
-    path.split_at_depth(
-        depth
-            .checked_add(pivot)
-            .expect("overflow determining root and relative paths"),
-    )
 }
